@@ -9,6 +9,7 @@ Inductive scase :=
 | SConsts (largest hl maxlen tread twrite0 treaddir rread0 rreaddir0 rlerror : N)
 | SSetup (req ann : N) (ok : bool)
 | SRead (req ann count fsize off rtype rsize : N) (err : bool) (rcount asked : option N)
+| SXRead (req ann count off vlen rtype rsize : N) (err : bool) (rcount : option N)
 | SReaddir (req ann count : N) (sizes : list N) (rtype rsize : N) (err : bool) (rcount : option N)
 | SClient (req announce : N) (result : N)        (* 0 ok, 1 ErrMessageTooLarge, 2 other refusal *)
           (msize payload : N)
@@ -52,6 +53,12 @@ Definition agrees (c : scase) : bool :=
                    opt_eqb asked (N.min count (max_reply_payload ann))
       | SRlerror | SPanic => (rtype =? p9_msgRlerror) && (rsize =? rlerrorFrame)
       end
+  | SXRead req ann count off vlen rtype rsize err rcount =>
+      negb err && (ann =? N.min req p9_maximumLength) &&
+      match txread_handle ann count off vlen with
+      | SData n => (rtype =? p9_msgRread) && (rsize =? replyOverhead + n) && opt_eqb rcount n
+      | SRlerror | SPanic => (rtype =? p9_msgRlerror) && (rsize =? rlerrorFrame)
+      end
   | SReaddir req ann count sizes rtype rsize err rcount =>
       negb err && (ann =? N.min req p9_maximumLength) &&
       match treaddir_handle ann count sizes with
@@ -84,6 +91,7 @@ Definition agrees (c : scase) : bool :=
 Definition property_holds (c : scase) : bool :=
   match c with
   | SRead _ ann _ _ _ _ rsize err _ _ => negb err && (rsize <=? ann)
+  | SXRead _ ann _ _ _ _ rsize err _ => negb err && (rsize <=? ann)
   | SReaddir _ ann _ _ _ rsize err _ => negb err && (rsize <=? ann)
   | SClient req announce result _ _ _ _ _ frames allsizes _ =>
       if result =? 0 then
